@@ -252,7 +252,7 @@ def run(ctx: Ctx, tier: str) -> Result:
                 v = k.value
                 digits = isinstance(v, ast.Call) and isinstance(v.func, ast.Name) and v.func.id in ("str", "repr", "hex") and any(
                     isinstance(tt, ast.Call) and norm(tt.func) == "isinstance" and "int" in norm(tt.args[1]) for tt, pol in paths.conditions(p, c, cv) if pol)
-                if _made_encodable(v) or digits or isinstance(v, ast.Constant):
+                if _made_encodable(v, ctx, cv) or digits or isinstance(v, ast.Constant):
                     res.ok("C08.TYPES", {"string_value": norm(v)[:60]})
                 else:
                     res.fail(Finding("C08.TYPES", cv.qname, c, cv.loc(c), "`%s` sends text as it is: an attribute (or resource) value holding a character UTF-8 cannot encode - a lone surrogate - "
@@ -313,8 +313,12 @@ def run(ctx: Ctx, tier: str) -> Result:
     skw = [k.value for c in t.calls_in(cwf[0]) for k in c.keywords if k.arg == "source"]
     sx = ctx.expand.expand(skw[0], cwf[0])
     wparam = P(cwf[0], 0)
+    from .common import enum_lookup
+    el_ = enum_lookup(ctx, skw[0], cwf[0])
     if sx and all("WatchSource.Value(" in x and (x.endswith("(%s.source)" % wparam) or x.endswith("(%s._WatchResult__source)" % wparam)) for x in sx):
         res.ok("C08.SOURCE", {"converted by": sx[0]})
+    elif el_ is not None and el_[0] == "WatchSource" and el_[1] == "Value" and ctx.expand.expand(el_[2], cwf[0]) in (["%s.source" % wparam], ["%s._WatchResult__source" % wparam]):
+        res.ok("C08.SOURCE", {"converted by": "table of WatchSource.items(), by name"})
     else:
         res.fail(Finding("C08.SOURCE", cwf[0].qname, skw[0], cwf[0].loc(skw[0]), "the watch source is not converted by enum name from the watch result's own source: %s" % sx))
 
